@@ -568,4 +568,27 @@ theorem resolve_cases (root p : Str) :
   · right; left; rfl
   · rename_i h; left; exact ⟨rfl, h⟩
 
+/-- the decision procedure the driver runs is the specification -/
+theorem insideB_iff (root q : Str) : insideB root q = true ↔ inside root q := by
+  unfold insideB inside
+  simp only [Bool.and_eq_true, beq_iff_eq, List.all_eq_true, bne_iff_ne, ne_eq]
+  constructor
+  · rintro ⟨⟨hr, ht⟩, hall⟩
+    refine ⟨hr, (cleanP q).segs.drop (cleanP root).segs.length, ?_, ?_, ?_, ?_⟩
+    · conv => lhs; rw [← List.take_append_drop (cleanP root).segs.length (cleanP q).segs]
+      rw [ht]
+    · intro hm; exact (hall _ hm).1.1 rfl
+    · intro hm; exact (hall _ hm).1.2 rfl
+    · intro hm; exact (hall _ hm).2 rfl
+  · rintro ⟨hr, r, hs, h1, h2, h3⟩
+    refine ⟨⟨hr, ?_⟩, ?_⟩
+    · rw [hs]; simp
+    · rw [hs]
+      simp only [List.drop_left']
+      intro x hx
+      refine ⟨⟨?_, ?_⟩, ?_⟩
+      · intro e; exact h1 (e ▸ hx)
+      · intro e; exact h2 (e ▸ hx)
+      · intro e; exact h3 (e ▸ hx)
+
 end Ecal.Path
